@@ -334,6 +334,21 @@ def gen_prune(rng, kind=None, many=False):
     return {"kind": "prune_" + kind + ("_many" if many else ""), "line": line}
 
 
+def gen_threshold(rng):
+    """exactly at / just below the 90 % boundary, 9..120 zones"""
+    total = rng.choice([9, 10, 11, 12, 19, 20, 21, 29, 30, 31, 40, 50, 59, 60, 100, 110, 120, rng.range(11, 120)])
+    m0 = -(-9 * total // 10)                      # ceil(0.9 * total)
+    matched = max(0, min(total, m0 + rng.choice([0, 0, -1, -1, 1, -2])))
+    hit = [True] * matched + [False] * (total - matched)
+    for i in range(len(hit) - 1, 0, -1):
+        j = rng.below(i + 1)
+        hit[i], hit[j] = hit[j], hit[i]
+    op = rng.choice(["gt", "gte", "lt", "lte"])
+    hi, lo = ("i10", "i0") if op in ("gt", "gte") else ("i0", "i10")
+    zones = " ".join(f"z {i} {hi if h else lo}" + (" " + rng.choice([hi, lo]) if h and rng.chance(1, 4) else "") for i, h in enumerate(hit))
+    return {"kind": "prune_threshold", "line": f"surf_prune {op} i5 {zones}"}
+
+
 def rnd_key(rng, n=None, alpha=None):
     n = rng.range(0, 4) if n is None else n
     alpha = alpha or [0, 1, 2, 97, 98, 255]
@@ -400,6 +415,8 @@ def cases(rng, tier):
             out.append(gen_prune(rng, kind))
     for _ in range(600 * k):
         out.append(gen_prune(rng, rng.choice(["int", "ts", "u64", "float_frac", "float_int", "float_mixed", "numstr_i", "optional_int"]), many=True))
+    for _ in range(200 * k):
+        out.append(gen_threshold(rng))
     # malformed stream: arbitrary values everywhere
     for _ in range(400 * k):
         out.append(gen_prune(rng, "anything"))
@@ -439,9 +456,21 @@ def parse_prune(line):
     return op, probe, zones
 
 
+def keys_from_first_event():
+    """the translated parameter (tools/params/p30_surf.py): does the builder take a zone's field set from its
+    first event only?  (True on the pinned tree; False once fixes/C08-surf-first-event-keys.diff is applied)"""
+    try:
+        t = open(os.path.join(vlib.COQ, "theories", "Gen", "Params.v")).read()
+        m = re.search(r"Definition surf_keys_from_first_event : bool := (true|false)\.", t)
+        return m.group(1) == "true" if m else True
+    except OSError:
+        return True
+
+
 def row_class(rows, v, p):
     """independent re-statement of the Coq [known_class]"""
-    if not rows or rows[0] == "_":
+    has_field = (bool(rows) and rows[0] != "_") if keys_from_first_event() else any(r != "_" for r in rows)
+    if not has_field:
         return "SurfFirstRowLacksField"
     nv, lv, sv = info(v)
     np_, lp, sp = info(p)
